@@ -494,6 +494,25 @@ pub fn domain(spec: &Spec, tier: Tier, seed: u64) -> Vec<Value> {
     // generic / other declarations reuse the scalar domains according to their carrier
     match spec.tag_value("carrier") {
         Some("list") | Some("point") => return list_domain(spec, tier, &mut rng),
+        Some("opt") => {
+            let mut out = vec![Value::List(vec![])];
+            for x in [i32::MIN as i64, -7, -1, 0, 1, 7, 13, i32::MAX as i64] {
+                out.push(Value::List(vec![x]));
+            }
+            return out;
+        }
+        Some("arr3") => {
+            let atoms = [-1i64, 0, 1, 3, i32::MAX as i64, i32::MIN as i64];
+            let mut out = Vec::new();
+            for a in atoms {
+                for b in atoms {
+                    for c in atoms {
+                        out.push(Value::List(vec![a, b, c]));
+                    }
+                }
+            }
+            return out;
+        }
         Some("flist") => {
             // vectors of f64 bit patterns incl. NaN, signed zeros, infinities
             let atoms: Vec<i64> = [0.0f64, -0.0, 1.5, -1.5, f64::NAN, f64::INFINITY, 1e300].iter().map(|x| x.to_bits() as i64).collect();
